@@ -55,6 +55,11 @@ func (t *BaseTraveler) Copy() Traveler {
 		Marks:  map[string]*DataElement{},
 		Path:   make([]DataElementID, len(t.Path)),
 		Signal: t.Signal,
+		//a copy carries what the original carries
+		Aggregation: t.Aggregation,
+		Count:       t.Count,
+		Render:      t.Render,
+		Selections:  t.Selections,
 	}
 	for k, v := range t.Marks {
 		o.Marks[k] = &DataElement{
